@@ -6,7 +6,7 @@ From XD Require Import Model.Base Model.Parser Spec.Partition Spec.Labels Proofs
    hack -- for EVERY behaviour of the tokenizer oracle (also one that raises) *)
 Theorem C13_label_partition :
   forall bal s ll, label_lines bal s = Ok ll ->
-  length ll = length (splitlines s) /\ Forall2 SameLineUpToHack ll (splitlines s).
+  length ll = length (srclines s) /\ Forall2 SameLineUpToHack ll (srclines s).
 Proof. exact label_lines_partition. Qed.
 Print Assumptions C13_label_partition.
 
@@ -65,8 +65,8 @@ Print Assumptions C13_tiles_cover.
 Theorem C13_parse_partition : forall o s items,
   parse o s = Parsed items ->
   exists ll gs,
-    length ll = length (splitlines (normalize_docstring s)) /\
-    Forall2 SameLineUpToHack ll (splitlines (normalize_docstring s)) /\
+    length ll = length (srclines (normalize_docstring s)) /\
+    Forall2 SameLineUpToHack ll (srclines (normalize_docstring s)) /\
     flatten_chunks gs = map snd ll /\
     Tiled 0 gs items.
 Proof. exact parse_partition. Qed.
@@ -86,7 +86,7 @@ Print Assumptions C13_offsets_are_line_indices.
 Theorem C13_parse_offsets : forall o s items,
   AstInRange o -> parse o s = Parsed items ->
   exists (ll : list (label * str)) gs,
-    length ll = length (splitlines (normalize_docstring s)) /\
+    length ll = length (srclines (normalize_docstring s)) /\
     flatten_chunks gs = map snd ll /\
     LaidOut 0 gs items.
 Proof. exact parse_offsets. Qed.
@@ -109,7 +109,7 @@ Print Assumptions C13_hypotheses_satisfiable.
    is labelled exactly as intended: prose is text, statement lines are source (continuation lines from the first
    '...' line on), the lines that follow are the want.  The excluded layouts are the known findings F8a/F8b. *)
 Theorem C13_labels_as_intended : forall bal bs s,
-  splitlines s = concat (map block_lines bs) -> Chain bal TEXT O bs ->
+  srclines s = concat (map block_lines bs) -> Chain bal TEXT O bs ->
   label_lines bal s = Ok (intended bs).
 Proof. exact labels_as_intended. Qed.
 Print Assumptions C13_labels_as_intended.
@@ -158,8 +158,8 @@ Print Assumptions C13_repl_chunk_tiles.
 Theorem C13_repl_partition : forall o s items,
   parse_repl o s = Parsed items ->
   exists ll gs,
-    length ll = length (splitlines (normalize_docstring s)) /\
-    Forall2 SameLineUpToHack ll (splitlines (normalize_docstring s)) /\
+    length ll = length (srclines (normalize_docstring s)) /\
+    Forall2 SameLineUpToHack ll (srclines (normalize_docstring s)) /\
     flatten_chunks gs = map snd ll /\
     Tiled 0 gs items.
 Proof. exact parse_repl_partition. Qed.
